@@ -74,7 +74,11 @@ package transaction
 //@   ensures wfCommodities(reg.commodities)
 //@   modifies reg.accounts.index[*], reg.commodities.index[*]
 //@   ensures result.1 == nil ==> (forall j int :: {result.0[j]} 0 <= j && j < len(result.0) ==> okPostings(result.0[j]))
-//@   loop 1 invariant fresh(targets) && wfCommodities(reg.commodities)
+//@   callback expand=0
+//@   ensures [C10] @accrual: t.Addons.Accrual.Range.Start != t.Addons.Accrual.Range.End && result.1 == nil ==> tlen() == old(tlen()) + 1 && result.0 == tres("expand", old(tlen()))
+//@        && targ("expand", 2, old(tlen())) == &t.Addons.Accrual
+//@   ensures [C10] @plain: t.Addons.Accrual.Range.Start == t.Addons.Accrual.Range.End ==> tlen() == old(tlen()) && (result.1 == nil ==> len(result.0) == 1)
+//@   loop 1 invariant fresh(targets) && wfCommodities(reg.commodities) && tlen() == entry(tlen())
 //
 // Compare: date, description, then the postings pairwise, then the number of postings; two
 // transactions tie only if they agree in all of these (so equal-comparing transactions print alike).
